@@ -69,6 +69,16 @@ def Atom.enc (cd : Codecs F G1 G2) : Atom F G1 G2 → List UInt8
 def Transcript.bytes (cd : Codecs F G1 G2) (t : Transcript F G1 G2) : List UInt8 :=
   (t.map (Atom.enc cd)).flatten
 
+/-- A *layout*: the order in which the items are fed to the `ChallengeBuilder` (`L[j]` is the index,
+in the model's default order, of the `j`-th item hashed).  Re-ordering the `.with(…)` calls
+consistently on the prover's and the verifier's side changes the layout, not the set of items. -/
+def Transcript.layout (L : List Nat) (t : Transcript F G1 G2) : Transcript F G1 G2 :=
+  L.map (fun i => t.getD i (.bytes []))
+
+/-- the layout feeds every one of the `n` items (and nothing else) -/
+def layoutCovers (L : List Nat) (n : Nat) : Bool :=
+  (List.range n).all (fun i => L.contains i) && L.all (· < n)
+
 /-- `ChallengeBuilder::finish`. -/
 def challengeOf (cd : Codecs F G1 G2) (H : List UInt8 → F) (t : Transcript F G1 G2) : F :=
   H (t.bytes cd)
